@@ -28,9 +28,12 @@ def apply_history(shape, hist, sdef, via='dict', work=None, nevaluators=1):
     model = W.build_model(pycells, names, via=via, work=work)
     evs = [L.Evaluator(model) for _ in range(nevaluators)]
     out = []
+    cur = dict(pycells)          # the current contents, as set so far
     for i, h in enumerate(hist):
         ev = evs[h.get('e', 1) - 1] if nevaluators > 1 else evs[0]
         a = W.addr(h['x'])
+        if h['op'] in ('set', 'setname'):
+            cur[a] = xl.from_abs(h['v'], 'native')
         try:
             if h['op'] == 'set':
                 # through the evaluator or - in histories whose first step is no evaluation - through the model's own setter
@@ -55,6 +58,21 @@ def apply_history(shape, hist, sdef, via='dict', work=None, nevaluators=1):
             out.append((i, h['op'] + '-result', h['res'], obs))
             if obs['t'] == 'exc':
                 break
+        if h['op'] == 'evaluate' and h['res']['t'] == 'open' and any(x['op'] in ('set', 'setname') for x in hist[:i]):
+            # the specification leaves the value open: C04 as it is stated - the response of a freshly compiled model with the current contents
+            try:
+                fm = W.build_model({k: v for k, v in cur.items() if v is not None}, names, via='dict' if not names else via, work=work)
+                fr = xl.to_abs(L.Evaluator(fm).evaluate(a))
+            except xl.MachineryError:
+                raise
+            except BaseException as e:      # noqa
+                if isinstance(e, (KeyboardInterrupt, SystemExit)):
+                    raise
+                fr = xl.to_abs(e)
+            same = (obs == fr) or (obs['t'] == 'exc' and fr['t'] == 'exc' and obs.get('cls') == fr.get('cls')) or \
+                   (obs['t'] != 'exc' and fr['t'] != 'exc' and agrees(obs, fr) is not False and agrees(fr, obs) is not False)
+            if not same:
+                out.append((i, 'differs-from-fresh-model', fr, obs))
         for key, exp in W.cell_items(h['stored']):
             try:
                 got = xl.to_abs(model.get_cell_value(W.addr(key)))
